@@ -192,8 +192,31 @@ def C02(ctx):
     hist = events_of(["faults", "history", "seed=%d" % ctx.seed, "n=%d" % (10 if q else 60), "points=%d" % (40 if q else 60)])
     scen = events_of(["faults", "scenarios", "max=%d" % (2 if q else 1000), "every=%d" % (3 if q else 4), "points=%d" % (30 if q else 40)]
                      + (["also=royalties"] if q else []), timeout=6000)
+    # always-run (both tiers, no seed): the native test blueprint F tries to obtain the vault's privilege - fields, collection
+    # entries, store entries opened with FORCE_WRITE / UNMODIFIED_BASE, an event with FORCE_WRITE - in transactions that fail
+    # after lock_fee; controls without the flags; the legitimate path through an owned vault's lock_fee
+    fw = events_of(["forcewrite", "attempts"])
+    attempts = [e for e in fw if e["a"] == "attempt"]
+    fw_receipts = [e for e in fw if e["a"] == "receipt"]
+    priv = collections.Counter((e["kind"], tuple(e["flags"])) for e in attempts if set(e["flags"]) & {"FORCE_WRITE", "UNMODIFIED_BASE"})
+    for kind in ("field", "collection_entry", "store_entry"):
+        for fl in (("MUTABLE", "FORCE_WRITE"), ("MUTABLE", "UNMODIFIED_BASE"), ("MUTABLE", "FORCE_WRITE", "UNMODIFIED_BASE")):
+            if priv[(kind, fl)] == 0:
+                raise ToolError("force-write workload incomplete: no attempt %s %s" % (kind, fl))
+    if priv[("event", ("FORCE_WRITE",))] == 0 or len(attempts) != len(fw_receipts) or any(e["result"] == "not reached" for e in attempts):
+        raise ToolError("force-write workload incomplete: %d attempts, %d receipts" % (len(attempts), len(fw_receipts)))
+    by_label = {e["label"]: e for e in fw_receipts}
+    for kind in (0, 1, 2, 3):
+        # the controls show that the writes / the event are real: they are in the succeeding transaction
+        okr = by_label.get("forcewrite:kind%d:flags0:succeeding" % kind)
+        if okr is None or okr["class"] != "CommitSuccess" or not ([t for t in okr["touched"] if t.startswith("other")] if kind < 3
+                                                                  else [x for x in okr["events"] if x[0] == "Ev"]):
+            raise ToolError("force-write workload: control of kind %d does not write / emit in a succeeding transaction" % kind)
+    if sum(1 for e in fw_receipts if e["class"] == "CommitFailure") < 15 or \
+            by_label["forcewrite:kind4:flags0:failing"].get("paying", 0) < 2:
+        raise ToolError("force-write workload: the attempts' transactions do not commit as failures / owned vault does not pay")
     evs = hist + scen
-    receipts = [e for e in evs if e["a"] == "receipt"]
+    receipts = [e for e in evs + fw if e["a"] == "receipt"]
     classes = collections.Counter(e["class"] for e in receipts)
     for cls in ("Reject", "CommitFailure", "CommitSuccess", "Abort"):
         if classes[cls] == 0:
@@ -205,14 +228,17 @@ def C02(ctx):
         raise ToolError("vacuous fault sweep: no workload transaction pays royalties")
     if not any(e["class"] == "CommitFailure" and e.get("paying", 0) >= 2 for e in receipts):
         raise ToolError("vacuous fault sweep: no committed failure with two fee vaults")
-    sweeps = sum(1 for e in evs if e["a"] == "begin")
+    sweeps = sum(1 for e in evs + fw if e["a"] == "begin")
     ctx.sample({"sweep": [e for e in evs[:6]]})
     ctx.sample({"committed_failure": next(e for e in receipts if e["class"] == "CommitFailure")})
 
     def key_of(ev):
         if ev is None:
             return "tx_failure:trace"
+        if ev["a"] == "attempt":
+            return "tx_failure:attempt:%s:%s" % (ev["kind"], ev["result"])
         return "tx_failure:%s" % ev.get("class", ev["a"])
+    validate_recording(ctx, fw, "forcewrite", "TxFailure", "TraceTxFailure", 1, key_of, starts=("begin",))
     validate_recording(ctx, [e for e in evs if not e.get("class", "").startswith("panic")], "faults", "TxFailure", "TraceTxFailure",
                        3 if q else 8, key_of, starts=("begin",))
     ctx.cov["traces_validated_against_impl"] += sweeps
@@ -246,8 +272,28 @@ def C02(ctx):
         for what, ok in ex.map(self_test, items):
             if ok:
                 raise ToolError("binding self-test of TraceTxFailure: corrupted %s accepted" % what)
+    # ... and of the force-write part: a privileged attempt answered "ok", a component substate in the failure's receipt
+    def fw_self_test(item):
+        what, mut = item
+        bad = json.loads(json.dumps(fw))
+        mut(bad)
+        p = ctx.wpath("self-fw-%s.ndjson" % what)
+        write_ndjson(p, bad)
+        ok, idx, _ = validate_trace("TxFailure", "TraceTxFailure", p, timeout=900, heap="2g")
+        os.unlink(p)
+        return what, ok, idx
+
+    def grant(bad):
+        next(e for e in bad if e["a"] == "attempt" and "FORCE_WRITE" in e["flags"] and e["kind"] == "field")["result"] = "ok"
+
+    def survive(bad):
+        next(e for e in bad if e["a"] == "receipt" and e["label"] == "forcewrite:kind0:flags1:failing")["touched"].append("other:Some(GlobalGenericComponent):64")
+    with ThreadPoolExecutor(max_workers=2) as ex:
+        for what, ok, idx in ex.map(fw_self_test, (("granted", grant), ("survived", survive))):
+            if ok:
+                raise ToolError("binding self-test of TraceTxFailure: %s force-write accepted" % what)
     distinct = len({(e["class"], tuple(e["touched"]), json.dumps(e["events"]), e.get("reason", "")[:30]) for e in receipts})
-    return {"exhaustive": False, "distinct_nontrivial": max(distinct, sweeps), "workload_transactions_swept": sweeps, "injected_executions": len(receipts),
+    return {"exhaustive": False, "privileged_attempts": {"%s %s" % (e["kind"], "|".join(e["flags"])): e["result"] for e in attempts}, "distinct_nontrivial": max(distinct, sweeps), "workload_transactions_swept": sweeps, "injected_executions": len(receipts),
             "receipt_classes": dict(classes),
             "touched_in_committed_failures": dict(collections.Counter(t for e in receipts if e["class"] == "CommitFailure" for t in e["touched"])),
             "events_in_committed_failures": dict(collections.Counter("%s@%s" % tuple(x) for e in receipts if e["class"] == "CommitFailure" for x in e["events"])),
@@ -256,7 +302,12 @@ def C02(ctx):
                     "transaction is re-executed on the same database state with InjectCostingError at %s; plus a run with "
                     "abort_when_loan_repaid; each receipt is projected to (class, classes of touched substates, (event name, emitter "
                     "class), royalty payments) and decided by TraceTxFailure (ReceiptOk, no rejection after a committed failure as the "
-                    "injection point moves later); distinct = distinct projected receipts"
+                    "injection point moves later). Always: a native test blueprint (not the fungible vault) tries to open its field, a "
+                    "collection entry and an owned store's entry with MUTABLE | FORCE_WRITE, | UNMODIFIED_BASE, | both, and to emit an event with "
+                    "FORCE_WRITE, writes if it is allowed to, and the transaction then fails (ASSERT_WORKTOP_CONTAINS) after lock_fee; controls "
+                    "without the flags (also in a succeeding transaction) and the legitimate lock_fee on an owned vault; the system's answer "
+                    "(PrivilegedOpenOk: refused with InvalidLockFlags / ForceWriteEventFlagsNotAllowed) and the receipt are decided by "
+                    "TraceTxFailure; distinct = distinct projected receipts"
                     % ("10 seeded manifests + every 3rd transaction of 2 scenarios and of the royalties scenario (and its royalty-paying one)" if q else "60 seeded manifests + every 4th transaction (and every royalty-paying one) of all scenarios at every protocol version",
                        "every call for N <= 40, else first / last 10 + 40 spread" if q else "every call for N <= 40..60, else first / last 10 + 40..60 spread")}
 
